@@ -152,8 +152,8 @@ def prune_cache(keep=3):
 
 
 class Mono:
-    def __init__(self, path):
-        self.j = mir.normalise(json.load(open(path)))
+    def __init__(self, path, preloaded=None):
+        self.j = preloaded if preloaded is not None else mir.normalise(json.load(open(path)))
         self.inst = self.j['instances']
         self.roots = {r['path']: r['instance'] for r in self.j['roots']}
 
@@ -175,16 +175,41 @@ class Mono:
         return seen
 
 
+_REF = None
+
+
+def reference_shape():
+    global _REF
+    if _REF is None:
+        p = os.path.join(VERIF, 'rules', 'tables', 'reference_shape.json')
+        _REF = json.load(open(p)) if os.path.exists(p) and not os.environ.get('VERIF_NO_CANON') else False
+    return _REF
+
+
 class Facts:
-    """All facts of one configuration."""
+    """All facts of one configuration (names canonicalised against the reference tree, unknown helpers inlined)."""
 
     def __init__(self, cfg):
+        from . import canon
         self.cfg = cfg
         d = extract(cfg)
         self.dir = d
         mir.set_repo_prefix(os.path.abspath(REPO))
+        lib_j = mir.normalise(json.load(open(os.path.join(d, 'arc_swap.local.json'))))
+        self._roots_j = None
+        self._mono_j = None
+        self.rewriter = None
+        self.alignment = None
+        helper_keys = None
+        ref = reference_shape()
+        if ref:
+            al = canon.Alignment(canon.shape_of(lib_j), ref)
+            self.alignment = al
+            self.rewriter = canon.Rewriter(al)
+            self.rewriter.rewrite(lib_j)
+            helper_keys = {self.rewriter._k(k) for k in al.unmatched_fns}
         known = json.load(open(os.path.join(VERIF, 'rules', 'tables', 'known_functions.json')))['names']
-        self.lib = mir.Crate(os.path.join(d, 'arc_swap.local.json'), known_names=set(known))
+        self.lib = mir.Crate(None, known_names=set(known), preloaded=lib_j, helper_keys=helper_keys)
         self._roots = None
         self._mono = None
         self.meta = json.load(open(os.path.join(d, 'ok.json')))
@@ -192,13 +217,19 @@ class Facts:
     @property
     def roots(self):
         if self._roots is None:
-            self._roots = mir.Crate(os.path.join(self.dir, 'roots.local.json'))
+            j = mir.normalise(json.load(open(os.path.join(self.dir, 'roots.local.json'))))
+            if self.rewriter:
+                self.rewriter.rewrite(j)
+            self._roots = mir.Crate(None, preloaded=j)
         return self._roots
 
     @property
     def mono(self):
         if self._mono is None:
-            self._mono = Mono(os.path.join(self.dir, 'roots.mono.json'))
+            j = mir.normalise(json.load(open(os.path.join(self.dir, 'roots.mono.json'))))
+            if self.rewriter:
+                self.rewriter.rewrite(j)
+            self._mono = Mono(None, preloaded=j)
         return self._mono
 
     def has_feature(self, f):
